@@ -538,6 +538,18 @@ pub fn resolve(op: &str) -> Option<OpFn> {
             let (x, y): (Date, Date) = (rv(a[0])?, rv(a[1])?);
             cmpo(o, x, y)
         },
+        "K.consts" => |a, o| {
+            // the public range constants: Date MIN MAX, Time ZERO MAX, Timestamp MIN MAX, IntervalYM MIN ZERO MAX,
+            // IntervalDT MIN ZERO MAX, OracleDate MIN MAX
+            need(a, 0)?;
+            ok(o, (
+                (Date::MIN.days() as i64, Date::MAX.days() as i64, Time::ZERO.usecs(), Time::MAX.usecs()),
+                (Timestamp::MIN.usecs(), Timestamp::MAX.usecs()),
+                (IntervalYM::MIN.months() as i64, IntervalYM::ZERO.months() as i64, IntervalYM::MAX.months() as i64),
+                (IntervalDT::MIN.usecs(), IntervalDT::ZERO.usecs(), IntervalDT::MAX.usecs()),
+                (OracleDate::MIN.usecs(), OracleDate::MAX.usecs()),
+            ))
+        },
         "D.now" => |a, o| {
             need(a, 7)?;
             clock(a, o)?;
